@@ -851,8 +851,13 @@ def c06(tier):
     payloads.append({'name': 'big:300-prints', 'text': '; '.join('print("line %d of a program whose image is larger than the reader buffers: ~\\n", %d)' % (i, i) for i in range(300)), 'ast': None, 'paths': 'formats'})
     payloads.append({'name': 'big:long-strings', 'text': '; '.join('print("%s\\n")' % (chr(97 + i % 26) * (3000 + 37 * i)) for i in range(8)), 'ast': None, 'paths': 'formats'})
     payloads.append({'name': 'edge:only-function-definitions', 'text': 'function f(a) -> a + 1; function g() -> f(1)', 'ast': None, 'paths': 'some'})
-    payloads.append({'name': 'edge:empty-program', 'text': '', 'ast': None, 'paths': 'formats'})
-    payloads.append({'name': 'edge:comment-only', 'text': '/* nothing */ // at all\n', 'ast': None, 'paths': 'formats'})
+    # empty and blank programs through files AND pipes; names that are words of the language elsewhere (print is a keyword, yet a legal method name; get / set / this / array-like names)
+    payloads.append({'name': 'edge:empty-program', 'text': '', 'ast': None, 'paths': 'few'})
+    payloads.append({'name': 'edge:blank-program', 'text': ' \n\t\n', 'ast': None, 'paths': 'few'})
+    payloads.append({'name': 'edge:comment-only', 'text': '/* nothing */ // at all\n', 'ast': None, 'paths': 'few'})
+    payloads.append({'name': 'edge:method-named-print', 'text': 'let o = object begin function print(x) -> x + 1; function get(i) -> i; function set(i, v) -> v end; print("~ ~ ~\\n", o.print(1), o[2], o[3] <- 4)', 'ast': None, 'paths': 'few'})
+    payloads.append({'name': 'edge:names-like-words-of-the-language', 'text': 'let arrays = 1; let iff = 2; let ends = 3; let nulls = 4; let thiss = 5; let printer = 6; let _ = 7; let object_ = object begin let begins = 8; function whiles(dos) -> dos + this.begins end; '
+                     'function lets(thens, elses) -> thens - elses; print("~ ~ ~ ~ ~ ~ ~ ~ ~\\n", arrays, iff, ends, nulls, thiss, printer, _, object_.whiles(1), lets(9, 1))', 'ast': None, 'paths': 'few'})
     payloads.insert(0, {'name': 'all-paths:mixed', 'text': 'function f(a) -> a * 2; let o = object begin let x = 1; function m(k) -> this.x + k end; let a = array(3, f(2)); print("é~ ~ ~\\n", o.m(1), a, f(5)); a[5]', 'ast': None, 'paths': 'all'})
     payloads.insert(1, {'name': 'all-paths:hello', 'text': 'print("Hello: \\"world\\" #1\\n")', 'ast': None, 'paths': 'all' if tier == 'thorough' else 'some'})
     # representative paths per format (one straightforward path per format + the stdin/dir/stdout corners)
